@@ -1,19 +1,26 @@
 (* C11 - the cursor row/column that render computes from (text, cursor) address a
-   line of the document: derived from the Document theorems of C02
+   line of the document, and the character there is the document character
+   under the cursor: derived from the Document theorems of C02
    (Proofs/C02_Coords.v, C02_Lines.v), so that C11_render_* need no hypothesis
-   about the document beyond 0 <= cursor <= len text. *)
+   about the document beyond 0 <= cursor <= len text and speak about the
+   DOCUMENT character under the cursor. *)
 From Coq Require Import ZArith List Bool Lia.
 From PTK Require Import Lib.Sx Lib.Py Model.Document Model.C11_Scroll Model.C11_CopyBody
      Proofs.C02_Base Proofs.C02_Coords Proofs.C02_Lines
-     Proofs.C11_VarPrefixFacts Proofs.C11_RenderFacts.
+     Proofs.C11_CopyFacts Proofs.C11_VarPrefixFacts Proofs.C11_RenderFacts.
 Import ListNotations.
 Open Scope Z_scope.
 
 Lemma doc_cursor_addresses_line : forall text cursor, 0 <= cursor <= len text ->
   exists line,
-    0 <= r_row text cursor /\
-    nth_error (r_src text) (Z.to_nat (r_row text cursor)) = Some line /\
-    0 <= r_col text cursor <= len line.
+    (0 <= r_row text cursor /\
+     nth_error (r_src text) (Z.to_nat (r_row text cursor)) = Some line /\
+     0 <= r_col text cursor <= len line) /\
+    (* the character of that line at the cursor column is the document character under the cursor *)
+    (forall ch, nth_error text (Z.to_nat cursor) = Some ch -> ch <> NL ->
+       nth_error line (Z.to_nat (r_col text cursor)) = Some ch) /\
+    (nth_error text (Z.to_nat cursor) = None \/ nth_error text (Z.to_nat cursor) = Some NL ->
+       r_col text cursor = len line).
 Proof.
   intros text cursor Hc. set (d := mkdoc text cursor).
   assert (Hv : valid d) by (unfold valid, d; cbn [dtext dcur]; exact Hc).
@@ -23,11 +30,93 @@ Proof.
   assert (Er' : cursor_position_row d = r_row text cursor) by (rewrite Er; reflexivity).
   assert (Ec' : r_col text cursor = len (current_line_before_cursor d)) by reflexivity.
   rewrite Er' in Hb, Hl. unfold line_count, lines in Hb. cbn [dtext d] in Hb.
-  exists (current_line d). split; [lia|]. split.
+  pose proof (len_nonneg (current_line_before_cursor d)) as Hb0.
+  pose proof (len_nonneg (current_line_after_cursor d)) as Ha0.
+  (* the part of the current line after the cursor starts with text[cursor] unless that is a line end *)
+  assert (Hafter : current_line_after_cursor d = before_first NL (skipn (Z.to_nat cursor) text)).
+  { unfold current_line_after_cursor, text_after_cursor. cbn [dtext dcur d].
+    now rewrite slice_from_in_range by lia. }
+  assert (Hnth0 : nth_error (skipn (Z.to_nat cursor) text) 0 = nth_error text (Z.to_nat cursor)).
+  { rewrite nth_error_skipn. f_equal. lia. }
+  assert (Hat : nth_error (current_line d) (Z.to_nat (r_col text cursor))
+                = nth_error (current_line_after_cursor d) 0).
+  { unfold current_line. rewrite Ec'. rewrite nth_error_app2 by (unfold len; lia).
+    f_equal. unfold len. lia. }
+  exists (current_line d). split; [split; [lia|split]|split].
   - rewrite Hl. unfold lines, r_src. cbn [dtext d]. apply nth_error_nth'. unfold len in Hb. lia.
-  - rewrite Ec'. unfold current_line. rewrite len_app.
-    pose proof (len_nonneg (current_line_before_cursor d)). pose proof (len_nonneg (current_line_after_cursor d)). lia.
+  - rewrite Ec'. unfold current_line. rewrite len_app. lia.
+  - intros ch Hch Hne. rewrite Hat, Hafter. rewrite <- Hnth0 in Hch.
+    destruct (skipn (Z.to_nat cursor) text) as [|x rest]; [discriminate|].
+    cbn [nth_error] in Hch. inversion Hch; subst x. cbn [before_first].
+    destruct (ch =? NL) eqn:E; [lia | reflexivity].
+  - intros Hend. rewrite Ec'. unfold current_line. rewrite len_app.
+    assert (current_line_after_cursor d = []); [|rewrite H; rewrite len_nil; lia].
+    rewrite Hafter. rewrite <- Hnth0 in Hend.
+    destruct (skipn (Z.to_nat cursor) text) as [|x rest]; [reflexivity|].
+    cbn [nth_error] in Hend. destruct Hend as [Hn | Hn]; [discriminate|]. inversion Hn; subst x.
+    cbn [before_first]. now rewrite Z.eqb_refl.
 Qed.
+
+(* what the window must show at the cursor: the document character under the
+   cursor (the first tab cell under TabsProcessor), or the blank after the line end *)
+Definition shown_char (g : cfg) (text : str) (cursor : Z) : Z :=
+  match nth_error text (Z.to_nat cursor) with
+  | Some ch => if ch =? NL then SP else shown (g_tabstop g) TABCH1 ch
+  | None => SP
+  end.
+
+Lemma processed_char_is_doc_char : forall g text cursor line ucol c,
+  0 <= g_tabstop g -> 0 <= r_col text cursor <= len line ->
+  (forall ch, nth_error text (Z.to_nat cursor) = Some ch -> ch <> NL ->
+     nth_error line (Z.to_nat (r_col text cursor)) = Some ch) ->
+  (nth_error text (Z.to_nat cursor) = None \/ nth_error text (Z.to_nat cursor) = Some NL ->
+     r_col text cursor = len line) ->
+  pl_s2d (process_line (g_bflag g) (g_before g) (g_tabstop g) TABCH1 TABCH2 (r_row text cursor) line)
+         (r_col text cursor) = Some ucol ->
+  nth_error (pl_text (process_line (g_bflag g) (g_before g) (g_tabstop g) TABCH1 TABCH2 (r_row text cursor) line) ++ [SP])
+            (Z.to_nat ucol) = Some c ->
+  c = shown_char g text cursor.
+Proof.
+  intros g text cursor line ucol c Ht Hcol Hin Hend Hu Hc.
+  destruct (process_line_char _ _ _ TABCH1 TABCH2 _ _ _ _ Ht (proj1 Hcol) Hu) as [Hch Hlast].
+  pose proof (s2d_bound _ _ _ _ _ _ _ _ _ Ht Hcol Hu) as Hub.
+  unfold shown_char.
+  destruct (nth_error text (Z.to_nat cursor)) as [ch|] eqn:Et.
+  - destruct (ch =? NL) eqn:En.
+    + assert (ch = NL) by lia. subst ch.
+      specialize (Hlast (Hend (or_intror eq_refl))).
+      rewrite nth_error_app2 in Hc by (unfold len in Hlast; lia).
+      replace (Z.to_nat ucol - length (pl_text (process_line (g_bflag g) (g_before g) (g_tabstop g) TABCH1 TABCH2 (r_row text cursor) line)))%nat
+        with O in Hc by (unfold len in Hlast; lia).
+      cbn in Hc. now inversion Hc.
+    + specialize (Hch ch (Hin ch eq_refl ltac:(lia))).
+      rewrite nth_error_app1 in Hc by (apply nth_error_Some; congruence).
+      rewrite Hch in Hc. now inversion Hc.
+  - specialize (Hlast (Hend (or_introl eq_refl))).
+    rewrite nth_error_app2 in Hc by (unfold len in Hlast; lia).
+    replace (Z.to_nat ucol - length (pl_text (process_line (g_bflag g) (g_before g) (g_tabstop g) TABCH1 TABCH2 (r_row text cursor) line)))%nat
+      with O in Hc by (unfold len in Hlast; lia).
+    cbn in Hc. now inversion Hc.
+Qed.
+
+(* the conclusion shared by both modes *)
+Definition render_conclusion (g : cfg) (W Hh xpos ypos : Z) (text : str) (cursor : Z) (st : sstate) : Prop :=
+  exists line r ucol Y X rowg,
+    nth_error (r_src text) (Z.to_nat (r_row text cursor)) = Some line /\
+    render g W Hh xpos ypos text cursor st = Some r /\ r_status r = 0 /\
+    r_ui r = (r_row text cursor, ucol) /\
+    pl_s2d (process_line (g_bflag g) (g_before g) (g_tabstop g) TABCH1 TABCH2 (r_row text cursor) line)
+           (r_col text cursor) = Some ucol /\
+    pl_d2s (process_line (g_bflag g) (g_before g) (g_tabstop g) TABCH1 TABCH2 (r_row text cursor) line) ucol
+      = r_col text cursor /\
+    r_cursor r = (Y, X) /\
+    ypos <= Y < ypos + Hh /\
+    xpos + r_mw r <= X < xpos + r_mw r + r_bw r /\ r_bw r = r_bwid g W text /\
+    (* the cursor is registered in rowcol_to_yx, inside the body: the verdict of the _refuted theorems *)
+    render_cursor_ok g W Hh xpos ypos text cursor st = true /\
+    (* the body cell at the screen cursor shows the DOCUMENT character under the cursor *)
+    nth_error (r_grid r) (Z.to_nat (Y - ypos)) = Some rowg /\
+    nth_error rowg (Z.to_nat (X - xpos - r_mw r)) = Some (tab_disp g (shown_char g text cursor)).
 
 Lemma render_wrap_cursor_doc : forall g W Hh xpos ypos text cursor st,
   (forall c, tab_sw g c = 1 /\ tab_dw g c = 1) -> 0 <= g_tabstop g ->
@@ -35,21 +124,16 @@ Lemma render_wrap_cursor_doc : forall g W Hh xpos ypos text cursor st,
   1 <= Hh -> 0 <= vs st -> 0 <= cursor <= len text ->
   g_wrap g = true ->
   (forall l k, epw (g_haspfx g) (cfg_pfx g) l k + 1 <= r_bwid g W text) ->
-  exists line r ucol Y X,
-    nth_error (r_src text) (Z.to_nat (r_row text cursor)) = Some line /\
-    render g W Hh xpos ypos text cursor st = Some r /\ r_status r = 0 /\
-    r_ui r = (r_row text cursor, ucol) /\
-    pl_d2s (process_line (g_bflag g) (g_before g) (g_tabstop g) TABCH1 TABCH2 (r_row text cursor) line) ucol
-      = r_col text cursor /\
-    r_cursor r = (Y, X) /\
-    ypos <= Y < ypos + Hh /\
-    xpos + r_mw r <= X < xpos + r_mw r + r_bw r /\ r_bw r = r_bwid g W text.
+  render_conclusion g W Hh xpos ypos text cursor st.
 Proof.
   intros g W Hh xpos ypos text cursor st Hn Ht Ho HW Hvs Hc Hw Hfit.
-  destruct (doc_cursor_addresses_line text cursor Hc) as (line & Hdoc).
+  destruct (doc_cursor_addresses_line text cursor Hc) as (line & Hdoc & Hin & Hend).
   destruct (render_wrap_cursor g W Hh xpos ypos text cursor st Hn Ht Ho HW Hvs line Hdoc Hw Hfit)
-    as (r & ucol & Y & X & H).
-  exists line, r, ucol, Y, X. split; [apply Hdoc | exact H].
+    as (r & ucol & Y & X & Hr & Hs & Hui & Hu & Hd & Hcur & HY & HX & Hbw & Hok & c & rowg & Hcc & G1 & G2).
+  exists line, r, ucol, Y, X, rowg.
+  rewrite (processed_char_is_doc_char g text cursor line ucol c Ht (proj2 (proj2 Hdoc)) Hin Hend Hu Hcc) in G2.
+  repeat split; try assumption; try apply Hdoc; try lia.
+  unfold render_cursor_ok, render_cursor_ok_gen. unfold render in Hr. rewrite Hr. exact Hok.
 Qed.
 
 Lemma render_nowrap_cursor_doc : forall g W Hh xpos ypos text cursor st,
@@ -58,19 +142,14 @@ Lemma render_nowrap_cursor_doc : forall g W Hh xpos ypos text cursor st,
   1 <= Hh -> 0 <= cursor <= len text ->
   g_wrap g = false ->
   1 <= r_bwid g W text - (if g_haspfx g then strw (tab_sw g) (cfg_pfx g (r_row text cursor) 0) else 0) ->
-  exists line r ucol Y X,
-    nth_error (r_src text) (Z.to_nat (r_row text cursor)) = Some line /\
-    render g W Hh xpos ypos text cursor st = Some r /\ r_status r = 0 /\
-    r_ui r = (r_row text cursor, ucol) /\
-    pl_d2s (process_line (g_bflag g) (g_before g) (g_tabstop g) TABCH1 TABCH2 (r_row text cursor) line) ucol
-      = r_col text cursor /\
-    r_cursor r = (Y, X) /\
-    ypos <= Y < ypos + Hh /\
-    xpos + r_mw r <= X < xpos + r_mw r + r_bw r /\ r_bw r = r_bwid g W text.
+  render_conclusion g W Hh xpos ypos text cursor st.
 Proof.
   intros g W Hh xpos ypos text cursor st Hn Ht Ho HW Hc Hw Hfit.
-  destruct (doc_cursor_addresses_line text cursor Hc) as (line & Hdoc).
+  destruct (doc_cursor_addresses_line text cursor Hc) as (line & Hdoc & Hin & Hend).
   destruct (render_nowrap_cursor g W Hh xpos ypos text cursor st Hn Ht Ho HW line Hdoc Hw Hfit)
-    as (r & ucol & Y & X & H).
-  exists line, r, ucol, Y, X. split; [apply Hdoc | exact H].
+    as (r & ucol & Y & X & Hr & Hs & Hui & Hu & Hd & Hcur & HY & HX & Hbw & Hok & c & rowg & Hcc & G1 & G2).
+  exists line, r, ucol, Y, X, rowg.
+  rewrite (processed_char_is_doc_char g text cursor line ucol c Ht (proj2 (proj2 Hdoc)) Hin Hend Hu Hcc) in G2.
+  repeat split; try assumption; try apply Hdoc; try lia.
+  unfold render_cursor_ok, render_cursor_ok_gen. unfold render in Hr. rewrite Hr. exact Hok.
 Qed.
